@@ -49,6 +49,8 @@ def deep_mutations(obj, path='', depth=0):
     """yield (path, thunk): each thunk performs ONE in-place mutation somewhere below obj."""
     if depth > 6 or not hasattr(obj, 'sorted_container_properties'):
         return
+    # NOT followed: state.descriptor_container.  It is a reference to ANOTHER MDIB object (the library hands out transaction states that
+    # refer to the live descriptor, by design); the statement is about the content of the handed-out object itself (see DESIGN.md, C03).
     for name, prop in obj.sorted_container_properties():
         try:
             v = prop.get_actual_value(obj)
@@ -72,7 +74,7 @@ def deep_mutations(obj, path='', depth=0):
                 yield p + '.pop()', _pop
         else:
             nv = _changed(v)
-            if nv is not None and depth > 0:  # top-level scalars of a private object can never leak; nested ones can
+            if nv is not None and (depth > 0 or name not in ('Handle', 'DescriptorHandle')):  # identity members stay (the harness looks objects up)
                 def _set(o=obj, n=name, val=nv):
                     setattr(o, n, val)
                 yield p, _set
@@ -141,7 +143,7 @@ def w_aborts(ctx: core.Ctx, arg):
     mdib = world.mdib
     memo = {}
     weights = dict(mdibops.DEFAULT_WEIGHTS)
-    weights.update({'abort': 14, 'reject': 8, 'unget': 3, 'empty': 2})
+    weights.update({'abort': 14, 'reject': 8, 'unget': 3, 'empty': 2, 'ctx_delete': 2, 'exotic': 1})
     orig_pre = mdib.pre_commit_handler
     for step in range(arg['n']):
         op = mdibops.gen_op(rng, mdib, memo, weights)
@@ -236,6 +238,92 @@ def w_crashpoints(ctx: core.Ctx, arg):
                                   'the transaction body raised (after deep mutation of the handed-out states) but the MDIB changed',
                                   {'kind': kind, 'iface': iface, 'crash_after_steps': j, 'handles': handles, 'mdib_file': mdib_file})
                 ctx.case(('crash', mdib_file, kind, iface, j))
+    world.stop()
+
+
+def w_rejected_caught(ctx: core.Ctx, arg):
+    """directed: every transaction kind x every way to end with nothing to commit (no call; get + unget; ONE call that the API rejects, the
+    application catches the exception inside the body and leaves the body normally).  A rejected call has no effect, so the commit must be
+    empty: MDIB, lookups, counters as before, nothing on the wire."""
+    mdib_file = MDIB_FILES[arg['i'] % len(MDIB_FILES)]
+    world, sink = _mk_world(mdib_file)
+    mdib = world.mdib
+    cat = mdibops.catalog(mdib)
+    for h in cat['context'][:2]:
+        mdibops.apply_op(mdib, {'op': 'context', 'sub': 'new', 'descr': h, 'new_handle': f'rc_{h}', 'seed': 1, 'iface': 'classic'})
+    first = {k: (cat[k][0] if cat[k] else None) for k in ('metric', 'alert', 'component', 'operational', 'rt', 'context', 'channel')}
+    ctx_state = next((s.Handle for s in mdib.context_states.objects), None)
+
+    def ent(kind, n=0):
+        hs = cat[kind]
+        return mdib.entities.by_handle(hs[n % len(hs)]) if hs else None
+
+    def wrong_kind(kind):
+        return next((k for k in ('metric', 'alert', 'component', 'operational') if k != kind and first[k]), None)
+
+    plans = []   # (transaction kind, manner, callable(mgr))
+    for kind in ('metric', 'alert', 'component', 'operational', 'rt'):
+        if not first[kind]:
+            continue
+        wk = wrong_kind(kind)
+        plans += [
+            (kind, 'no_call', lambda mgr: None),
+            (kind, 'get_unget', lambda mgr, h=first[kind]: mgr.unget_state(mgr.get_state(h))),
+            (kind, 'get_state.unknown_handle', lambda mgr: mgr.get_state('no.such.handle')),
+            (kind, 'get_state.wrong_kind', lambda mgr, h=first[wk]: mgr.get_state(h)),
+            (kind, 'write_entity.wrong_kind', lambda mgr, k=wk: mgr.write_entity(ent(k))),
+            (kind, 'write_entity.multi_state', lambda mgr: mgr.write_entity(ent('context'))),
+            (kind, 'write_entities.bad_last', lambda mgr, k=kind, w=wk: mgr.write_entities([ent(k, 0), ent(k, 1), ent(w)])),
+            (kind, 'write_entities.bad_middle', lambda mgr, k=kind, w=wk: mgr.write_entities([ent(k, 0), ent(w), ent(k, 1)])),
+            (kind, 'write_entities.multi_state_last', lambda mgr, k=kind: mgr.write_entities([ent(k, 0), ent('context')])),
+        ]
+    if first['context']:
+        d = first['context']
+        plans += [
+            ('context', 'no_call', lambda mgr: None),
+            ('context', 'get_context_state.unknown_handle', lambda mgr: mgr.get_context_state('no.such.state')),
+            ('context', 'mk_context_state.not_a_context_descriptor', lambda mgr: mgr.mk_context_state(first['metric'], 'x1')),
+            ('context', 'mk_context_state.unknown_descriptor', lambda mgr: mgr.mk_context_state('no.such.descriptor', 'x2')),
+            ('context', 'mk_context_state.handle_in_use', lambda mgr: mgr.mk_context_state(d, ctx_state)),
+            ('context', 'write_entity.unknown_state', lambda mgr: mgr.write_entity(mdib.entities.by_handle(d), ['no.such.state'])),
+            ('context', 'disassociate_all.nothing_associated', lambda mgr: mgr.disassociate_all('no.such.descriptor')),
+        ]
+    if first['channel']:
+        plans += [
+            ('descriptor', 'no_call', lambda mgr: None),
+            ('descriptor', 'get_descriptor.unknown_handle', lambda mgr: mgr.get_descriptor('no.such.handle')),
+            ('descriptor', 'add_descriptor.handle_in_use', lambda mgr: mgr.add_descriptor(
+                mdibops._new_numeric(mdib, first['metric'], first['channel'], random.Random(1)))),
+            ('descriptor', 'remove_descriptor.unknown_handle', lambda mgr: mgr.remove_descriptor('no.such.handle')),
+            ('descriptor', 'get_state.descriptor_not_in_transaction', lambda mgr: mgr.get_state(first['metric'])),
+            ('descriptor', 'add_state.descriptor_not_in_transaction', lambda mgr: mgr.add_state(
+                mdib.data_model.mk_state_container(mdib.descriptions.handle.get_one(first['metric'])))),
+        ]
+    for kind, manner, call in plans:
+        before = snap(mdib)
+        wire_before, results_before = sink.wire_count(), len(sink.results)
+        rejected = None
+        try:
+            with getattr(mdib, mdibops._TR[kind])() as mgr:
+                try:
+                    call(mgr)
+                except Exception as ex:  # noqa: BLE001  the application handles the rejection and goes on
+                    rejected = type(ex).__name__
+        except Exception as ex:  # noqa: BLE001
+            ctx.count(f'rejected_caught.commit_raised.{kind}.{manner}.{type(ex).__name__}')
+            _expect_untouched(ctx, world, sink, before, wire_before, results_before, f'rejected_caught.commit_raised.{kind}.{manner}',
+                              'the only call of the body was rejected (and handled); the commit then raised and left changes', {'mdib_file': mdib_file})
+            continue
+        if rejected is None and manner not in ('no_call', 'get_unget', 'disassociate_all.nothing_associated'):
+            ctx.count(f'rejected_caught.not_rejected.{kind}.{manner}')   # the API accepts it: outside the statement
+            continue
+        ctx.count('rejected_caught.judged')
+        ctx.count(f'rejected_caught.{kind}.{manner}.{rejected or "no_exception"}')
+        key = f'empty.{kind}' if rejected is None else f'rejected_caught.{kind}.{manner.split(".")[0]}'
+        _expect_untouched(ctx, world, sink, before, wire_before, results_before, key,
+                          'a transaction whose body did nothing / whose only call was rejected by the API changed the MDIB or sent a report',
+                          {'kind': kind, 'manner': manner, 'rejected_with': rejected, 'mdib_file': mdib_file})
+        ctx.case(('rejected_caught', mdib_file, kind, manner, rejected))
     world.stop()
 
 
@@ -420,7 +508,16 @@ def w_isolation(ctx: core.Ctx, arg):
 
     all_handles = sorted(d.Handle for d in mdib.descriptions.objects)
     rng.shuffle(all_handles)
-    for h in all_handles[:arg['n']]:
+    # every kind of hand-out in every run: two handles of each descriptor kind first, the rest at random
+    cat = mdibops.catalog(mdib)
+    chosen = []
+    for kind in ('metric', 'rt', 'alert', 'component', 'operational', 'context'):
+        pool = [h for h in cat[kind] if h not in chosen]
+        if kind == 'context':
+            pool = [h for h in pool if mdib.context_states.descriptor_handle.get(h)] or pool
+        chosen += rng.sample(pool, min(2, len(pool)))
+    chosen += [h for h in all_handles if h not in chosen]
+    for h in chosen[:max(arg['n'], 12)]:
         d = mdib.descriptions.handle.get_one(h)
         # 1. entity getters
         ent = mdib.entities.by_handle(h)
@@ -516,6 +613,7 @@ def run(ctx: core.Ctx):
     jobs = []
     for k in range(4):
         jobs.append(['w_crashpoints', {'i': k}])
+        jobs.append(['w_rejected_caught', {'i': k}])
         jobs.append(['w_commit_failures', {'i': k, 'n': 6 if q else 60}])
     for k in range(4 if q else 16):
         jobs.append(['w_aborts', {'i': k, 'n': 120 if q else 1500}])
@@ -523,6 +621,7 @@ def run(ctx: core.Ctx):
         jobs.append(['w_isolation', {'i': k, 'n': 12 if q else 400}])
     core.fanout(ctx, MODULE, 'dispatch', jobs, timeout=3000)
     ctx.floor('isolation.mutations', 500)
+    ctx.floor('rejected_caught.judged', 60)
     ctx.floor('crashpoint.metric', 8)
     ctx.floor('abort.body.end', 5)
     ctx.floor('failpoint.fired', 4)
